@@ -20,11 +20,15 @@
    worker.processEOF -> truncateJob                 ATruncate (detected: bytes read > new size)
    events between In and Commit                     flight (in read order; delivered flag)
 
+   lines the pipeline rejects before PassEvent          AReadJunk (only effect: lastEventSeq = EventSeqIDError = 0)
+
    Interface taken from C01/C02 (pipeline) and C07 (offsets file): an event is committed after the output
    got it, commits of one stream of one source come in read order, a save writes the live offsets.
    Ghost fields: ever (lines the output received in any run, current content generation), gone (lines a
    restart skipped over without their having been delivered), fresh (a save happened since the last
-   truncation).                                                                                        *)
+   truncation), e_old (event read before the last truncation).
+   [step] is total on what the code can do (it also models the "offset corruption" panic); [adm] selects the
+   histories the positive theorems speak about; the refutation witnesses run through [run] (no [adm]).   *)
 From Verif Require Import Base.Sx.
 
 Definition stream := bytes.
